@@ -474,6 +474,41 @@ func (fx *Fx) runLoop(st *State, lp *loopParts) {
 			c.oblige(loopHead, "blocking", tag+".blocks-only-in-select", "true", "the loop blocks only in its selects", fx.w.pos(lp.node.Pos()))
 		}
 	}
+	if lp.spec != nil && len(lp.spec.Offers) > 0 && !c.dry {
+		// every select of the loop (function literals excluded) has a case receiving from the named channel expression
+		for _, want := range lp.spec.Offers {
+			nsel := 0
+			ast.Inspect(lp.body, func(n ast.Node) bool {
+				switch x := n.(type) {
+				case *ast.FuncLit:
+					return false
+				case *ast.SelectStmt:
+					nsel++
+					has := "false"
+					for _, cl := range x.Body.List {
+						cc := cl.(*ast.CommClause)
+						var rx ast.Expr
+						switch cm := cc.Comm.(type) {
+						case *ast.ExprStmt:
+							rx = cm.X
+						case *ast.AssignStmt:
+							rx = cm.Rhs[0]
+						}
+						if rx != nil {
+							if u, ok := unparen(rx).(*ast.UnaryExpr); ok && u.Op == token.ARROW && fx.exprText(u.X) == want {
+								has = "true"
+							}
+						}
+					}
+					c.oblige(loopHead, "blocking", fmt.Sprintf("%s.select%d-offers(<-%s)", tag, nsel, want), has, "every select the loop blocks in has a case <-"+want, fx.w.pos(x.Pos()))
+				}
+				return true
+			})
+			if nsel == 0 {
+				c.oblige(loopHead, "blocking", tag+".offers(<-"+want+")", "false", "the loop blocks in a select that has a case <-"+want, fx.w.pos(lp.node.Pos()))
+			}
+		}
+	}
 	if lp.spec != nil && lp.spec.Cancels != "" && !c.dry {
 		// every select the loop blocks in (at the top level of its body) offers the cancellation alternative
 		nsel := 0
